@@ -20,7 +20,7 @@ class EngineProp(Prop):
         n = self.n_quick if tier == 'quick' else self.n_thorough
         for k in range(n):
             out.append({'role': rng.choice(['server', 'client']), 'seed': rng.getrandbits(40), 'len': rng.randint(*self.length),
-                        'profile': self.profiles[k % len(self.profiles)], 'fragment': rng.choice([None, None, 64])})
+                        'profile': self.profiles[k % len(self.profiles)], 'fragment': rng.choice([None, None, 64]), 'slow': rng.random() < 0.2})
         return out
 
     def run_impl(self, case):
@@ -37,10 +37,17 @@ class EngineProp(Prop):
             rng = random.Random(case['seed'])
             sh = enginegen.Shadow(case['role'])
             sh.big = bool(case.get('fragment'))
+            slow = bool(case.get('slow'))
+            if slow:
+                # a slow link: writes block until released, a few per group, so that frames of several streams wait in the send queue together
+                await H.apply_async({'op': 'gate', 'on': True})
+                script.append([{'op': 'gate', 'on': True}])
             for pos in range(case['len']):
                 group = enginegen.choose_group(rng, H, sh, case['profile'], pos)
                 if not group:
                     continue
+                if slow:
+                    group = group + [{'op': 'release', 'n': rng.choice([0, 1, 1, 2, 3])}]
                 for s in group:
                     await H.apply_async(s)
                 await loop.settle()
@@ -90,6 +97,11 @@ class EngineProp(Prop):
                     await loop.settle()
                     if group:
                         script.append(group)
+            if slow:
+                # the link recovers (or, after a loss, nothing is left to release)
+                await H.apply_async({'op': 'gate', 'on': False})
+                await loop.settle()
+                script.append([{'op': 'gate', 'on': False}])
             H.poll_futures()
         extra = await self.epilogue(loop, H, case)
         fin = await H.finish()
